@@ -310,8 +310,17 @@ pub fn run(ctx: &Ctx) {
         check_conv,
     );
     let n = t.pick(300_000u64, 10_000_000);
+    ctx.enumerated(
+        "small-integers-every-scale",
+        "conv",
+        201 * 81,
+        true,
+        "EXHAUSTIVE: every unscaled n in -100..100 (zero included) x every scale -40..40",
+        |i| Some(Conv { d: D::new((i as i64 / 81 - 100).to_string(), i as i64 % 81 - 40) }),
+        check_conv,
+    );
     ctx.generated("near-limits", "conv", n, "LIMIT + {-2..2} + fraction, assorted scales", near_limit_strategy, check_conv);
-    ctx.generated("pushed-past-limit", "conv", n, "floor(LIMIT/10^k) (+1) with scale -k, k in 1..25", pushed_strategy, check_conv);
+    ctx.generated("pushed-past-limit", "conv", n, "floor(LIMIT/10^k) (+1) with scale -k, k in 1..40", pushed_strategy, check_conv);
     ctx.generated("free", "conv", n, "1..60 digits, scales -40..40", free_strategy, check_conv);
     ctx.generated("fractions", "conv", n / 2, "values in (-1, 1)", fraction_strategy, check_conv);
     ctx.generated("primitives", "prim", n, "ten integer types at MIN, MAX, 0, +-1, MIN+1, MAX-1 and random values; From<T>, From<&T>, From<(T,i64)>, FromPrimitive", prim_strategy, check_prim);
